@@ -102,6 +102,43 @@ def entries() -> list[Entry]:
             except UnicodeError as exc:
                 raise DeserializeError(str(exc)) from exc
 
+    class SelfOverlap(AutoSeparatedPacketSerializer[str, str]):
+        """A separator that overlaps itself (b"aa": its proper prefix b"a" is also a suffix)."""
+
+        def __init__(self) -> None:
+            super().__init__(b"aa", limit=4096)
+
+        def serialize(self, packet: str) -> bytes:
+            return packet.encode("ascii")
+
+        def deserialize(self, data: bytes) -> str:
+            return data.decode("ascii", "replace")
+
+    def gen_no_double_a(rng: random.Random) -> str:
+        out = ""
+        for _ in range(rng.randint(1, 6)):
+            out += rng.choice("bca" if not out.endswith("a") else "bc")
+        return out
+
+    def accepted(make: Callable[[], Any], gen: Callable[[random.Random], Any]) -> Callable[[random.Random], Any]:
+        """Only packets the serializer accepts are valid packets: draw again when it refuses one with ValueError."""
+
+        def g(rng: random.Random) -> Any:
+            ser = make()
+            for _ in range(50):
+                p = gen(rng)
+                try:
+                    wire = b"".join(ser.incremental_serialize(p))
+                except ValueError:
+                    continue
+                # (data that already ends with the separator is taken as terminated - the separator is not doubled: by design such a
+                # packet does not come back with its ending, it is not a packet of this framing)
+                if wire == ser.serialize(p) + ser.separator:
+                    return p
+            return p
+
+        return g
+
     class Fixed(FixedSizePacketSerializer[bytes, bytes]):
         def __init__(self) -> None:
             super().__init__(5)
@@ -220,7 +257,9 @@ def entries() -> list[Entry]:
         Entry("Base64(line,debug)", lambda: Base64EncoderSerializer(StringLineSerializer(debug=True), debug=True), gen_line, buffered=True),
         Entry("PickleSerializer(debug)", lambda: PickleSerializer(unpickler_cls=_PyUnpickler, debug=True), _json_value, incremental=False),
         Entry("FixedSizePacketSerializer(subclass,5)", Fixed, gen_bytes(5, 5), buffered=True),
-        Entry("AutoSeparatedPacketSerializer(subclass,'|;|')", Upper, lambda rng: _text(rng, 1, 10, string.ascii_letters + "|;é"), buffered=True),
+        # packets may end with a proper prefix of the separator ("|", "|;"): whatever the serializer accepts has to come back unchanged
+        Entry("AutoSeparatedPacketSerializer(subclass,'|;|')", Upper, accepted(Upper, lambda rng: _text(rng, 1, 8, string.ascii_letters + "|;é") + rng.choice(["", "", "|", "|;", ";", ";|"])), buffered=True),
+        Entry("AutoSeparatedPacketSerializer(subclass,'aa')", SelfOverlap, accepted(SelfOverlap, gen_no_double_a), buffered=True),
         Entry("FileBasedPacketSerializer(subclass)", LengthPrefixed, gen_bytes(0, 20), buffered=True),
         Entry("Base64(JSON)", lambda: Base64EncoderSerializer(JSONSerializer()), _json_value, buffered=True),
         Entry("Base64(pickle,checksum,standard)", lambda: Base64EncoderSerializer(PickleSerializer(unpickler_cls=_PyUnpickler), alphabet="standard", checksum=True), _json_value, buffered=True),
